@@ -221,6 +221,14 @@ func (g *genCtx) expr(depth int) *exprSpec {
 	if e.Val && (g.mode == "validation-errors" || g.mode == "mixed") && g.chance("valErr", 35) {
 		e.ValErrs = rapid.IntRange(1, 3).Draw(t, "valErrs")
 	}
+	if g.mode == "validation-errors" || g.mode == "mixed" {
+		if e.Prep && g.chance("prepReport", 8) {
+			e.PrepReport = rapid.IntRange(1, 2).Draw(t, "prepReportKind")
+		}
+		if e.Val && g.chance("valReport", 8) {
+			e.ValReport = true
+		}
+	}
 	if !e.Src {
 		return e
 	}
